@@ -341,6 +341,8 @@ class World:
 
     def op_resume(self, op):
         tr = self._tr(op)
+        if tr is not None:
+            tr.pause_in = 0          # the console reads again: an armed stall is off as well
         if tr is None or tr.lost:
             self.ev("skipped", what="resume")
             return
